@@ -588,6 +588,11 @@ func (t *objectType) InitFromHash(c px.Context, initHash px.OrderedMap) {
 			} else if optFound != nil {
 				panic(px.Error(px.SerializationRequiredAfterOptional, issue.H{`label`: t.Label(), `required`: attr.Label(), `optional`: optFound.Label()}))
 			}
+			for _, prev := range serialization[:i] {
+				if prev == attrName {
+					panic(px.Error(px.SerializationDuplicateAttribute, issue.H{`label`: t.Label(), `attribute`: attr.Label()}))
+				}
+			}
 			serialization[i] = attrName
 		})
 		t.serialization = serialization
